@@ -1,6 +1,7 @@
 package vharness
 
 import (
+	"os"
 	"github.com/goptics/varmq/vrt"
 )
 
@@ -43,7 +44,7 @@ var MaxStepsDefault = 400_000
 // RunCase executes a case on the coop runtime. It is a pure function of the case.
 func RunCase(c *Case) *Result {
 	e := &Env{c: c, jobs: map[int]*jobH{}, groups: map[int]*groupH{}, items: map[int]*Item{}, itemQ: map[int]int{}, open: map[int]bool{}}
-	opt := vrt.Options{Chooser: mkChooser(c.Sched), MaxSteps: MaxStepsDefault, OnQuiescent: e.onQuiescent}
+	opt := vrt.Options{Chooser: mkChooser(c.Sched), MaxSteps: MaxStepsDefault, OnQuiescent: e.onQuiescent, Trace: os.Getenv("VERIF_TRACE") != ""}
 	if c.Cut > 0 {
 		cut := c.Cut
 		opt.StopWhen = func() bool { return e.adCalls >= cut }
